@@ -330,7 +330,11 @@ func srvScript(t *testing.T, r *Rng, s *Stream, c *SrvConf, replaySteps []script
 	if len(hosts) >= 2 && r.Chance(20) {
 		a, b := 0, 1
 		near := offerHold - 2*time.Second
-		switch r.Intn(5) {
+		switch r.Intn(7) {
+		case 5: // the REQUEST arrives just inside the hold time: looked up before, confirmed after the hold has run out (the ARP probe lies in between)
+			plan = []planStep{{0, a, "discover"}, {offerHold + Pick(r, 100*time.Millisecond, 300*time.Millisecond, 500*time.Millisecond), a, "selecting"}, {time.Second, b, "discover"}, {time.Second, a, "renewing"}}
+		case 6: // a renewal arriving just inside the lease time, then a competitor
+			plan = []planStep{{0, a, "discover"}, {time.Second, a, "selecting"}, {c.Lease + Pick(r, -200*time.Millisecond, 200*time.Millisecond, 500*time.Millisecond), a, Pick(r, "renewing", "rebinding")}, {time.Second, b, "discover-req"}, {time.Second, a, "renewing"}}
 		case 4: // a bound client sends something spurious (another server's id, elsewhere, unknown type), then a competitor tries
 			sp := Pick(r, "wrong-server", "wrong-server", "unicast-elsewhere", "unknown-type", "selecting-other", "discover-sid")
 			plan = []planStep{{0, a, "discover"}, {time.Second, a, "selecting"}, {5 * time.Second, a, sp}, {time.Second, b, "discover"}, {time.Second, b, "selecting"},
